@@ -10,7 +10,7 @@ B3 = ('hybrid 3-d array of unsigned (wrap-around defined); extents 1..MAXE, all 
       'and the initial value are symbolic unless a config fixes them (KEEP = run-time keepdims value, SH0..SH2 = shape: enumerated exhaustively); ')
 def _r(name, bounds, quick=None, thorough=None, **kw):
     return dict(name=name, src='harnesses/C08.c', func='h_' + name, kernels=['C08_reduce'], bounds=B3 + bounds,
-                quick=[_c(2)] if quick is None else quick, thorough=[_c(3)] if thorough is None else thorough, timeout=kw.pop('timeout', 900), **kw)
+                quick=[_c(2)] if quick is None else quick, thorough=[_c(3, _timeout=3600)] if thorough is None else thorough, timeout=kw.pop('timeout', 900), **kw)
 KEEPS = [_c(2, KEEP=0), _c(2, KEEP=1)]
 KEEPS3 = [_c(3, KEEP=0, _timeout=3600), _c(3, KEEP=1, _timeout=3600)]
 KFA = {'KF_C08_ACCUM_NEGATIVE_AXIS': 1}
@@ -28,7 +28,7 @@ HARNESSES = [
     quick=_shapes(2), thorough=_shapes(3)),
  _r('rsub_none_keep_rt', 'view::reduce(subtract, a, None, None, None, bool keepdims): number or (1,1,1) array decided at run time; keepdims symbolic; shape a per-query constant, all shapes enumerated',
     quick=_shapes(2), thorough=_shapes(3)),
- _r('asub_axis', 'view::accumulate_subtract(a, axis): running fold, source shape; negative axes are the pending finding', quick=[_c(2, **KFA)], thorough=[_c(3, **KFA)]),
+ _r('asub_axis', 'view::accumulate_subtract(a, axis): running fold, source shape; negative axes are the pending finding', quick=[_c(2, **KFA)], thorough=[_c(3, _timeout=3600, **KFA)]),
  # ---- thorough tier only (symbolic shapes, measured 125..720 s each at extents <= 2 on the loaded machine)
  _r('rsub_axis_init', 'reduce_subtract(a, axis, None, initial)', quick=[], thorough=[_c(2), _c(3, _timeout=3600)]),
  _r('rsub_axis_keep_rt', 'reduce_subtract(a, axis, None, None, bool keepdims), one query per keepdims value', quick=[], thorough=KEEPS + KEEPS3),
@@ -93,7 +93,8 @@ PENDING_FINDINGS = [
 OUTSIDE = [
  'var, stddev, vector_norm (compositions of 5-7 views): solver out of memory (6 GB) after 405 s / 428 s / 73 s at extents <= 2 even with uninterpreted float arithmetic - not reached',
  'mean with exact IEEE arithmetic (only the uninterpreted-arithmetic form returns a verdict); dtype argument of reductions (float/int result dtype)',
- 'view::reduce(subtract, a, 2 axes) and its initial/keepdims form with a SYMBOLIC shape (no verdict in 900 s; decided per constant shape), extents > 3, source dims other than 3 (2 for trace/mean)',
+ 'view::reduce(subtract, a, 2 axes) and its initial/keepdims form with a SYMBOLIC shape (no verdict in 900 s; decided per constant shape: 293 s / 664 s at (2,2,2)); '
+ 'symbolic-shape queries at extents 1..3 are thorough-tier only (reduce_subtract single axis: no verdict in 1200 s / 4.1 GB on the loaded machine, 764 s measured idle in DESIGN.md); extents > 3, source dims other than 3 (2 for trace/mean)',
  'compile-time (constant) axes and shapes, other container kinds (see C09); maximum/minimum/bitwise/logical reductions other than amax/amin (same reduce_t code, different functor: C07 leaf checks)',
  'duplicate axes and out-of-range axes (invalid arguments: C15); signed element types (summing arbitrary ints overflows: a property of the data)',
  'products of full 32-bit data (prod / cumprod use 8-bit data)',
